@@ -107,7 +107,6 @@ class RenderNode(Node):
             key = self.alias or template.name.split(".")[0]
 
             if self.loop and isinstance(val, Sequence) and not isinstance(val, str):
-                context.raise_for_loop_limit(len(val))
                 forloop = ForLoop(
                     name=key,
                     it=iter(val),
@@ -118,21 +117,22 @@ class RenderNode(Node):
                 namespace["forloop"] = forloop
                 namespace[key] = None
 
-                for itm in forloop:
-                    namespace[key] = itm
-                    # Every iteration gets a context of its own. Variables, counters
-                    # and cycles set while rendering one item are not visible to the
-                    # next.
-                    ctx = context.copy(
-                        token=self.token,
-                        namespace=namespace,
-                        disabled_tags=self.disabled,
-                        carry_loop_iterations=True,
-                        template=template,
-                    )
-                    character_count += template.render_with_context(
-                        ctx, buffer, partial=True, block_scope=True
-                    )
+                with context.loop_carry(len(val)):
+                    for itm in forloop:
+                        namespace[key] = itm
+                        # Every iteration gets a context of its own. Variables, counters
+                        # and cycles set while rendering one item are not visible to the
+                        # next.
+                        ctx = context.copy(
+                            token=self.token,
+                            namespace=namespace,
+                            disabled_tags=self.disabled,
+                            carry_loop_iterations=True,
+                            template=template,
+                        )
+                        character_count += template.render_with_context(
+                            ctx, buffer, partial=True, block_scope=True
+                        )
             else:
                 namespace[key] = val
                 character_count = template.render_with_context(
@@ -179,7 +179,6 @@ class RenderNode(Node):
             key = self.alias or template.name.split(".")[0]
 
             if self.loop and isinstance(val, Sequence) and not isinstance(val, str):
-                context.raise_for_loop_limit(len(val))
                 forloop = ForLoop(
                     name=key,
                     it=iter(val),
@@ -190,18 +189,19 @@ class RenderNode(Node):
                 namespace["forloop"] = forloop
                 namespace[key] = None
 
-                for itm in forloop:
-                    namespace[key] = itm
-                    ctx = context.copy(
-                        token=self.token,
-                        namespace=namespace,
-                        disabled_tags=self.disabled,
-                        carry_loop_iterations=True,
-                        template=template,
-                    )
-                    character_count += await template.render_with_context_async(
-                        ctx, buffer, partial=True, block_scope=True
-                    )
+                with context.loop_carry(len(val)):
+                    for itm in forloop:
+                        namespace[key] = itm
+                        ctx = context.copy(
+                            token=self.token,
+                            namespace=namespace,
+                            disabled_tags=self.disabled,
+                            carry_loop_iterations=True,
+                            template=template,
+                        )
+                        character_count += await template.render_with_context_async(
+                            ctx, buffer, partial=True, block_scope=True
+                        )
             else:
                 namespace[key] = val
                 character_count = await template.render_with_context_async(
